@@ -671,3 +671,117 @@ Fixpoint mismatches_from (n : nat) (cs : list case) : list nat :=
   | c :: t => if case_ok c then mismatches_from (S n) t else n :: mismatches_from (S n) t
   end.
 Definition mismatches := mismatches_from 0.
+
+(* ---------- one file in isolation: a "reg" entry [r] followed by its "chunk" entries [cs] ----------
+   These are the per-file slices of the two interpreters above (same functions mem_chunk / chunk_search / read_chunks):
+   what pass1 puts into r.chunks[name] and what initNodes appends to md[id].chunks for this run of entries. *)
+Definition file_mem_ents (r : entry) (cs : list entry) : list chunk :=
+  (if (e_chsize r >? 0) && (e_chsize r <? e_size r) then [mem_chunk r None] else [])
+  ++ map (fun c => mem_chunk c (Some (e_size r))) cs.
+
+Definition file_mem_lookup (r : entry) (cs : list entry) (off : Z) : option (Z * Z * Z) :=
+  let ents := file_mem_ents r cs in
+  if Nat.ltb (length ents) 2 then
+    let c := mem_chunk r None in
+    if off >=? c_size c then None else Some (c_choff c, c_size c, c_dg c)
+  else chunk_search ents off.
+
+Definition db_chunk (e : entry) (lastsize : Z) : chunk := CH (e_choff e) (db_chsize e lastsize) (e_cdg e) (e_off e).
+
+Definition file_db_stored (r : entry) (cs : list entry) : list chunk :=
+  (if e_size r >? 0 then [db_chunk r (e_size r)] else [])
+  ++ filter (fun c => c_size c >? 0) (map (fun c => db_chunk c (e_size r)) cs).
+
+Definition file_db_lookup (r : entry) (cs : list entry) (off : Z) : option (Z * Z * Z) :=
+  chunk_search (read_chunks (file_db_stored r cs) (e_size r)) off.
+
+(* ---------- spec-conforming TOCs (explicit boolean predicate) ---------- *)
+
+Definition nonchunk (toc : list entry) : list entry := filter (fun e => negb (etype_eqb (e_type e) TChunk)) toc.
+
+(* p is a proper ancestor of q (both reversed paths) *)
+Fixpoint is_suffix_proper (p q : list Z) : bool :=
+  match q with
+  | [] => false
+  | _ :: q' => path_eqb p q' || is_suffix_proper p q'
+  end.
+
+Fixpoint ssortedb (l : list chunk) : bool :=
+  match l with
+  | [] => true
+  | c :: t => (match t with c' :: _ => c_choff c <? c_choff c' | [] => true end) && ssortedb t
+  end.
+Fixpoint tilesb (l : list chunk) (size : Z) : bool :=
+  match l with
+  | [] => true
+  | c :: t => (c_size c =? (match t with c' :: _ => c_choff c' | [] => size end) - c_choff c) && (0 <? c_size c) && tilesb t size
+  end.
+
+(* split the TOC into (non-chunk entry, its chunk entries); None when the TOC starts with a chunk *)
+Fixpoint groups (toc : list entry) (cur : option (entry * list entry)) (acc : list (entry * list entry)) : option (list (entry * list entry)) :=
+  match toc with
+  | [] => Some (rev (match cur with Some g => g :: acc | None => acc end))
+  | e :: t =>
+      if etype_eqb (e_type e) TChunk then
+        match cur with
+        | Some (h, cs) => groups t (Some (h, cs ++ [e])) acc
+        | None => None
+        end
+      else groups t (Some (e, [])) (match cur with Some g => g :: acc | None => acc end)
+  end.
+
+Definition group_ok (g : entry * list entry) : bool :=
+  let '(h, cs) := g in
+  match cs with
+  | [] => if etype_eqb (e_type h) TReg && (0 <? e_size h)
+          then (e_choff h =? 0) && tilesb [mem_chunk h None] (e_size h) else true
+  | _ => etype_eqb (e_type h) TReg && (e_choff h =? 0)
+         && forallb (fun c => e_size c =? 0) cs
+         && let tb := mem_chunk h None :: map (fun c => mem_chunk c (Some (e_size h))) cs in
+            ssortedb tb && tilesb tb (e_size h)
+  end.
+
+Definition conforming (toc : list entry) : bool :=
+  let nc := nonchunk toc in
+  forallb (fun e => negb (etype_eqb (e_type e) TOther)) toc
+  && match groups toc None [] with Some gs => forallb group_ok gs | None => false end
+  && forallb (fun e =>
+       if etype_eqb (e_type e) TDir then true else
+       let n := clean (e_name e) in
+       negb (path_eqb n [])                                                              (* only a directory may be the root *)
+       && (Nat.eqb (length (filter (fun e' => path_eqb (clean (e_name e')) n) nc)) 1)    (* its name is not repeated *)
+       && negb (existsb (fun e' => is_suffix_proper n (clean (e_name e'))) nc)           (* nothing lives below it *)
+       && (if etype_eqb (e_type e) THardlink then                                        (* the target exists and is no directory *)
+             existsb (fun e' => path_eqb (clean (e_name e')) (clean (e_hl e)) && negb (etype_eqb (e_type e') TDir)) nc
+             && negb (existsb (fun e' => path_eqb (clean (e_name e')) (clean (e_hl e)) && etype_eqb (e_type e') TDir) nc)
+           else true)) nc.
+
+(* db GetAttr(root) before the background initialisation has run *)
+Definition db_early_root_attr : attr := norm_attr (read_attr (write_attr root_attr)).
+Definition root_attr_of (r : result) : option attr :=
+  match r with Some (v :: _) => Some (v_attr v) | _ => None end.
+
+(* ---------- byte level of the integer attributes: encoding/binary PutVarint / Varint (db.go encodeInt, readAttr) ---------- *)
+
+(* zig-zag: ux = uint64(x) << 1, complemented when x < 0 *)
+Definition zigzag (x : Z) : Z := if x <? 0 then - 2 * x - 1 else 2 * x.
+Definition unzigzag (u : Z) : Z := if u mod 2 =? 0 then u / 2 else - (u / 2) - 1.   (* x = ux >> 1; complemented when ux & 1 *)
+
+(* PutUvarint into a buffer of [n] bytes (binary.MaxVarintLen64 = 10): 7 bits per byte, least significant group first,
+   bit 7 = "more follows" *)
+Fixpoint put_uvarint (n : nat) (u : Z) : list Z :=
+  match n with
+  | O => []
+  | S n' => if u <? 128 then [u] else (u mod 128 + 128) :: put_uvarint n' (u / 128)
+  end.
+
+(* Uvarint: x |= (b & 0x7f) << s for every byte with bit 7 set, then the final byte; the groups occupy disjoint bits,
+   so the OR is a sum. None = the buffer ends before a final byte. *)
+Fixpoint uvarint (l : list Z) : option Z :=
+  match l with
+  | [] => None
+  | b :: t => if b <? 128 then Some b else option_map (fun r => (b - 128) + 128 * r) (uvarint t)
+  end.
+
+Definition encode_int (x : Z) : list Z := put_uvarint 10 (zigzag x).
+Definition decode_int (l : list Z) : option Z := option_map unzigzag (uvarint l).
